@@ -121,7 +121,7 @@ def execute_alpha(ob):
     m = [float(common.frac(v)) for v in ob["m"]]
     k = [float(common.frac(v)) for v in ob["k"]]
     line = dict(oid=ob["oid"], kind="alphas", fns=ob["fns"], nfff=ob["nfff"], m=ob["m"], k=ob["k"], probes=ob["probes"],
-                nf=list(ob["nf"]), outcome="OK", ref_milli=0, run_milli=0, note="")
+                nf=list(ob["nf"]), outcome="OK", ref_milli=0, run_milli=0, modev_milli=0, note="")
     qref, nfref, aref = 9.0, 5, 0.2
     th = cards.theory(PTO=0, PTODIS=0, FNS=ob["fns"], NfFF=ob["nfff"], mc=m[0], mb=m[1], mt=m[2], kcThr=k[0], kbThr=k[1],
                       ktThr=k[2], Qmc=m[0], Qmb=m[1], Qmt=m[2], Qref=qref, nfref=nfref, alphas=aref, Q0=1.0, MaxNfAs=6, MaxNfPdf=6)
@@ -152,6 +152,33 @@ def execute_alpha(ob):
             worst = mm
             line["note"] = f"mu2={mu2} nf={nf}: alpha_s code={obs!r} oracle={exp!r}"
     line["run_milli"] = worst
+    # the METHOD of the running follows the card whatever spelling of it the card uses: at NNLO every name of the expanded family gives
+    # the running of "EXP", every name of the exact family the running of "EXA", the two differ, an unknown name is refused
+    fam = {"EXA": ("iterate-exact", "perturbative-exact", "decompose-exact"),
+           "EXP": ("iterate-expanded", "perturbative-expanded", "decompose-expanded", "TRN", "truncated", "ordered-truncated")}
+
+    def running(name):
+        o2 = Output()
+        o2.theory = dict(th, PTO=2, PTODIS=2, ModEv=name)
+        g2 = {}
+        o2.apply_pdf_alphas_alphaqed_xir_xif = lambda pdf, a_s, a_qed, xir, xif: g2.update(a_s=a_s)
+        o2.apply_pdf(None)
+        return [float(g2["a_s"](math.sqrt(mu2))) for mu2 in (2.3, 9.0, 700.0)]
+    try:
+        base = {k: running(k) for k in fam}
+        dev = max(abs(a - b) / abs(b) for k, names in fam.items() for n in names for a, b in zip(running(n), base[k]))
+        split = max(abs(a - b) / abs(b) for a, b in zip(base["EXA"], base["EXP"]))
+        try:
+            running("no-such-method")
+            refused = False
+        except ValueError:
+            refused = True
+        line["modev_milli"] = max(common.milli(dev, 1e-13), 0 if split > 1e-6 else 2**30, 0 if refused else 2**30)
+        if line["modev_milli"] > 1000:
+            line["note"] += f" method spellings: worst deviation within a family {dev:.3e}, exact vs expanded {split:.3e}, unknown name refused: {refused}"
+    except Exception as ex:
+        line["outcome"] = "Crash_" + type(ex).__name__
+        line["note"] = "method spellings: " + str(ex)[:160]
     return line
 
 
@@ -184,7 +211,8 @@ def run(ctx):
         ("scales", lambda l: dict(l, scales_ok=False) if l.get("kind") != "alphas" else None),
         ("missing", lambda l: dict(l, read_missing=True) if l.get("kind") != "alphas" else None),
         ("nf", lambda l: dict(l, nf=[l["nf"][0] + 1] + l["nf"][1:]) if l.get("kind") == "alphas" else None),
-        ("running", lambda l: dict(l, run_milli=3000) if l.get("kind") == "alphas" else None)])
+        ("running", lambda l: dict(l, run_milli=3000) if l.get("kind") == "alphas" else None),
+        ("method", lambda l: dict(l, modev_milli=3000) if l.get("kind") == "alphas" else None)])
     by = {ln["oid"]: ln for ln in lines}
     allob = {o["oid"]: o for o in obls + alph}
     for oid, clause in bad.items():
